@@ -5898,6 +5898,10 @@ namespace awkward {
 
   const ContentPtr
   NumpyArray::unique_data() const {
+    if (!iscontiguous()) {
+      return contiguous().unique_data();
+    }
+
     Index64 starts(1);
     starts.setitem_at_nowrap(0, 0);
 
